@@ -30,6 +30,10 @@ import (
 
 var lockNames = map[string]bool{"Lock": true, "RLock": true}
 
+// visibleLocks: the mutexes of the file are simulator-visible, so a goroutine
+// may be parked with one held and no lock region needs to be left out.
+var visibleLocks bool
+
 var atomicNames = map[string]bool{
 	"Load": true, "Store": true, "LoadOrStore": true, "LoadAndDelete": true, "CompareAndSwap": true,
 	"CompareAndDelete": true, "Add": true, "Swap": true, "Range": true, "Delete": true, "And": true, "Or": true,
@@ -70,6 +74,9 @@ func yieldStmt(label string, fset *token.FileSet, pos token.Pos, spin bool) ast.
 // lockCall classifies a statement: +1 for x.Lock()/x.RLock(), -1 for
 // x.Unlock()/x.RUnlock(), 0 otherwise; deferred reports `defer x.Unlock()`.
 func lockCall(st ast.Stmt) (delta int, deferred bool) {
+	if visibleLocks {
+		return 0, false
+	}
 	var call *ast.CallExpr
 	switch s := st.(type) {
 	case *ast.ExprStmt:
@@ -203,6 +210,7 @@ func rewriteFuncLits(label string, fset *token.FileSet, n ast.Node) {
 func main() {
 	names := flag.String("names", "atomic", "atomic | lock | both")
 	skip := flag.String("skip", "", "comma-separated function names to leave alone")
+	vismutex := flag.Bool("vismutex", false, "replace sync.Mutex / sync.RWMutex by the simulator-visible simhook types (no lock region is left out then)")
 	flag.Parse()
 	if flag.NArg() != 3 {
 		fmt.Fprintln(os.Stderr, "usage: autoyield [-names atomic|lock] [-skip f1,f2] <label> <in.go> <out.go>")
@@ -254,6 +262,22 @@ func main() {
 			fmt.Fprintln(os.Stderr, "autoyield: file has no import declaration to extend")
 			os.Exit(2)
 		}
+	}
+	if *vismutex {
+		visibleLocks = true
+		ast.Inspect(f, func(n ast.Node) bool {
+			if sel, ok := n.(*ast.SelectorExpr); ok {
+				if id, ok := sel.X.(*ast.Ident); ok && id.Name == "sync" && (sel.Sel.Name == "Mutex" || sel.Sel.Name == "RWMutex") {
+					id.Name = "simhook"
+				}
+			}
+			return true
+		})
+		// the file may not use package sync for anything else
+		f.Decls = append(f.Decls, &ast.GenDecl{Tok: token.VAR, Specs: []ast.Spec{&ast.ValueSpec{
+			Names: []*ast.Ident{ast.NewIdent("_")},
+			Type:  &ast.SelectorExpr{X: ast.NewIdent("sync"), Sel: ast.NewIdent("Locker")},
+		}}})
 	}
 	for _, d := range f.Decls {
 		fd, ok := d.(*ast.FuncDecl)
